@@ -310,6 +310,15 @@ type FieldSpec struct {
 
 type TypeSpec struct {
 	Fields []FieldSpec `json:"fields"`
+	// Dotted: the keys carry a '.' ("b.B"), a legal character in a json member name and in every other source's key
+	Dotted bool `json:"dotted,omitempty"`
+}
+
+func (t TypeSpec) key(i int) string {
+	if t.Dotted {
+		return keys[i][:1] + "." + keys[i][1:]
+	}
+	return keys[i]
 }
 
 // ReqSpec: Vals[field][source] = texts carried by that source under the field's key (nil = absent).
@@ -381,7 +390,7 @@ func (f FieldSpec) tagString(key string) string {
 func (t TypeSpec) rtype() reflect.Type {
 	fs := make([]reflect.StructField, len(t.Fields))
 	for i, f := range t.Fields {
-		fs[i] = reflect.StructField{Name: "F" + strconv.Itoa(i), Type: kinds[f.Kind].rt, Tag: reflect.StructTag(f.tagString(keys[i]))}
+		fs[i] = reflect.StructField{Name: "F" + strconv.Itoa(i), Type: kinds[f.Kind].rt, Tag: reflect.StructTag(f.tagString(t.key(i)))}
 	}
 	return reflect.StructOf(fs)
 }
@@ -389,7 +398,7 @@ func (t TypeSpec) rtype() reflect.Type {
 func (t TypeSpec) String() string {
 	var parts []string
 	for i, f := range t.Fields {
-		parts = append(parts, fmt.Sprintf("F%d %s `%s`", i, f.Kind, f.tagString(keys[i])))
+		parts = append(parts, fmt.Sprintf("F%d %s `%s`", i, f.Kind, f.tagString(t.key(i))))
 	}
 	return "struct{" + strings.Join(parts, "; ") + "}"
 }
@@ -406,7 +415,7 @@ func realize(t TypeSpec, r ReqSpec) realReq {
 	var mpart strings.Builder
 	var params param.Params
 	for i, f := range t.Fields {
-		key := keys[i]
+		key := t.key(i)
 		if f.Kind == "hook" {
 			key = hookKey
 		}
@@ -821,11 +830,11 @@ func judge(t TypeSpec, r ReqSpec, err error, pan string, obj reflect.Value) verd
 				why = "convert:text:base=" + kinds[f.Kind].base.name
 			}
 			return verdict{key: "no-error:" + why,
-				msg: fmt.Sprintf("field F%d (%s `%s`): Bind returned nil error and value %s; reference: error (%s)", i, f.Kind, f.tagString(keys[i]), got, p.cls)}
+				msg: fmt.Sprintf("field F%d (%s `%s`): Bind returned nil error and value %s; reference: error (%s)", i, f.Kind, f.tagString(t.key(i)), got, p.cls)}
 		}
 		gc := classify(f, r.Vals[i], got)
 		return verdict{key: fmt.Sprintf("value:shape=%s:want=%s:got=%s", sh, p.cls, gc),
-			msg: fmt.Sprintf("field F%d (%s `%s`): got %s, reference %s (from %s)", i, f.Kind, f.tagString(keys[i]), got, p.val, p.cls)}
+			msg: fmt.Sprintf("field F%d (%s `%s`): got %s, reference %s (from %s)", i, f.Kind, f.tagString(t.key(i)), got, p.val, p.cls)}
 	}
 	return verdict{class: cls}
 }
@@ -999,6 +1008,9 @@ func bindJudge(c *mc.Ctx, a *acct, b binding.Binder, api int, rt reflect.Type, t
 	a.exec++
 	a.trans += int64(len(t.Fields))
 	if vd.key != "" {
+		if t.Dotted {
+			vd.key = "dotted-key|" + vd.key
+		}
 		c.Violate(vd.key, phase+": "+vd.msg+"; "+describe(t, rr), cas())
 		return false
 	}
@@ -1075,6 +1087,49 @@ func phaseJSONSkip(c *mc.Ctx, kindNames []string, reqModes []int) {
 					cas := func() Case { return Case{Mode: "seq", Steps: []Step{{Type: t, Req: r, API: j % 2}}, Global: true} }
 					bindJudge(c, a, binding.NewDefaultBinder(nil), j%2, rt, t, r, rr, "jsonskip/cold", cas)
 					bindJudge(c, a, binding.DefaultBinder(), j%2, rt, t, r, rr, "jsonskip/warm", cas)
+				}
+			}
+		}
+	})
+}
+
+// phase 1c: keys that contain a '.' (`json:"b.B"`): a legal member name; the presence test behind required / default must
+// find the member the JSON decoder finds
+func phaseDotted(c *mc.Ctx, kindNames []string, reqModes []int) {
+	masks := []int{1 << srcJSON, 1<<srcQuery | 1<<srcJSON, 1<<srcHeader | 1<<srcJSON, 1 << srcQuery}
+	c.ParallelFor(len(kindNames)*len(masks), func(i int) {
+		k := kinds[kindNames[i/len(masks)]]
+		mask := masks[i%len(masks)]
+		a := newAcct()
+		defer a.flush(c)
+		var reqs []ReqSpec
+		for _, present := range []int{0, mask, mask & -mask, mask & (1 << srcJSON)} {
+			reqs = append(reqs, ReqSpec{Vals: [][][]string{fieldVals(k, present, 0, 0, -1, 0)}})
+		}
+		for _, def := range []bool{false, true} {
+			for _, rq := range reqModes {
+				t := TypeSpec{Fields: []FieldSpec{{Kind: k.name, Tags: mask, Default: def, Req: rq}}, Dotted: true}
+				rt := t.rtype()
+				for j := range reqs {
+					r := reqs[j]
+					rr := realize(t, r)
+					a.nontriv += 2
+					cas := func() Case { return Case{Mode: "seq", Steps: []Step{{Type: t, Req: r, API: j % 2}}, Global: true} }
+					bindJudge(c, a, binding.NewDefaultBinder(nil), j%2, rt, t, r, rr, "dotted/cold", cas)
+					bindJudge(c, a, binding.DefaultBinder(), j%2, rt, t, r, rr, "dotted/warm", cas)
+				}
+				// a JSON body that carries another member: the dotted member is absent from a body that is there
+				t2 := TypeSpec{Fields: []FieldSpec{{Kind: k.name, Tags: mask, Default: def, Req: rq}, {Kind: "int", Tags: 1 << srcJSON}}, Dotted: true}
+				rt2 := t2.rtype()
+				for j, present := range []int{0, mask & (1 << srcJSON), mask &^ (1 << srcJSON)} {
+					if present&(1<<srcForm) != 0 {
+						continue
+					}
+					r := ReqSpec{Vals: [][][]string{fieldVals(k, present, 0, 0, -1, 0), fieldVals(kinds["int"], 1<<srcJSON, 1, 0, -1, 0)}}
+					rr := realize(t2, r)
+					a.nontriv++
+					cas := func() Case { return Case{Mode: "seq", Steps: []Step{{Type: t2, Req: r, API: j % 2}}, Global: true} }
+					bindJudge(c, a, binding.NewDefaultBinder(nil), j%2, rt2, t2, r, rr, "dotted2/cold", cas)
 				}
 			}
 		}
@@ -1673,6 +1728,7 @@ func run(c *mc.Ctx) {
 
 	phaseSingle(c, kn, reqModes, rots, true)
 	phaseJSONSkip(c, kn, reqModes)
+	phaseDotted(c, kn, reqModes)
 	lap("single")
 	c.Extra("kinds", len(kn))
 	c.Extra("requests_per_single_field_type", len(singleReqs(kinds["int8"], rots, true)))
